@@ -194,12 +194,21 @@ def native_korder_smeared(seed):
     diffs = {}
     for unres in (False, True):
         res, Wref, fs = [], None, []
-        for perm in ((0, 1, 2), (2, 0, 1)):
-            at = Atoms(["Si", "H"], [[0.5, 0.6, 0.4], [2.9, 3.0, 3.3]], ecut=4, a=A_TRI, unrestricted=unres)
-            at.s = [11, 11, 13]
-            at.occ.smearing = 0.04
-            at.occ.bands = 5
-            at.set_k(ks[list(perm)], wk[list(perm)])
+        built = None
+        for perm in ((0, 1, 2), (2, 0, 1), (1, 2, 0)):
+            if perm == (1, 2, 0):
+                # the third order is set on the BUILT object of the first one (same number of k-points, other order of points and weights)
+                at = built
+                at.set_k(ks[list(perm)], wk[list(perm)])
+            else:
+                at = Atoms(["Si", "H"], [[0.5, 0.6, 0.4], [2.9, 3.0, 3.3]], ecut=4, a=A_TRI, unrestricted=unres)
+                at.s = [11, 11, 13]
+                at.occ.smearing = 0.04
+                at.occ.bands = 5
+                at.set_k(ks[list(perm)], wk[list(perm)])
+                if built is None:
+                    at.build()
+                    built = at
             scf = SCF(at, xc="lda,vwn", verbose="critical")
             at = scf.atoms
             ns = at.occ.Nspin
@@ -212,8 +221,8 @@ def native_korder_smeared(seed):
             fs.append(np.asarray(scf.atoms.occ.f)[np.argsort(perm)])
         tag = "polarised: " if unres else "paired: "
         for k in res[0]:
-            diffs[tag + k] = abs(res[0][k] - res[1][k])
-        diffs[tag + "fillings (permuted back)"] = float(np.abs(fs[0] - fs[1]).max())
+            diffs[tag + k] = max(abs(res[0][k] - res[1][k]), abs(res[0][k] - res[2][k]))
+        diffs[tag + "fillings (permuted back)"] = float(max(np.abs(fs[0] - fs[1]).max(), np.abs(fs[0] - fs[2]).max()))
         if abs(res[0]["Eentropy"]) < 1e-6:
             raise RuntimeError("harness: the smeared case has no entropy term")
     return max(diffs.values()), dict(check="Si/H, smearing 0.04, 5 bands, LDA, k-points listed as (0,1,2) and (2,0,1)", diffs={k: v for k, v in diffs.items() if v > 1e-10} or dict(worst=max(diffs.values())))
